@@ -268,12 +268,12 @@ func (o *optimizer) etaReduction() {
 		if litTy == nil || funTy == nil || !types.Identical(litTy, funTy) {
 			return false
 		}
-		instantiated := false
+		typeArgs := 0 // number of explicit type arguments
 		switch x := fun.(type) {
 		case *ast.IndexExpr:
-			fun, instantiated = x.X, true
+			fun, typeArgs = x.X, 1
 		case *ast.IndexListExpr:
-			fun, instantiated = x.X, true
+			fun, typeArgs = x.X, len(x.Indices)
 		}
 		var id *ast.Ident
 		var recv ast.Expr
@@ -294,7 +294,9 @@ func (o *optimizer) etaReduction() {
 			x, isIdent := recv.(*ast.Ident)
 			return isIdent && strings.HasPrefix(x.Name, cstIterVar)
 		}
-		return instantiated == (sig.TypeParams().Len() > 0)
+		// a partially instantiated generic function (rest inferred from the
+		// call's arguments) is not a value once the call is gone
+		return typeArgs == sig.TypeParams().Len()
 	}
 
 	o.m.Match(
